@@ -555,7 +555,50 @@ def specs(draw):
         for lv in b["levels"]:
             if lv["key"] in reserved:
                 lv["key"] = lv["key"] + "_l"
+    _disambiguate_key_orders(spec)
     return {"spec": spec, "dims": dims}
+
+
+def _chains(spec):
+    K = spec["keys"]
+    out = []
+    for b in spec["basetypes"]:
+        out.append((b, [K["project"], K["type"]] + [lv["key"] for lv in b["levels"]] + [K["version"], K["state"]]
+                    + ([K["node"]] if b.get("side_branch") else []) + [K["leaf"]]))
+    for b in spec.get("flat_basetypes", []):
+        out.append((b, [K["project"], K["type"]] + [lv["key"] for lv in b["levels"]] + [K["version"]]))
+    return out
+
+
+def _order_conflicts(spec):
+    """Pairs (basetype, key) where a '/'-prefix of one basetype has the same key SET as a prefix of another, in another order."""
+    chains = _chains(spec)
+    bad = []
+    for i, (b1, c1) in enumerate(chains):
+        for b2, c2 in chains[i + 1:]:
+            for n in range(3, min(len(c1), len(c2)) + 1):
+                if set(c1[:n]) == set(c2[:n]) and c1[:n] != c2[:n]:
+                    for j in range(n):
+                        if c1[j] != c2[j] and any(lv["key"] == c2[j] for lv in b2["levels"]):
+                            bad.append((b2, c2[j]))
+    return bad
+
+
+def _disambiguate_key_orders(spec):
+    """
+    Convention kept by well-formed configurations: a dictionary of fields identifies its type by its KEY SET, so two
+    types (of different basetypes) never have the same key set in a different key order. Renaming level keys at
+    random can break this (basetype A: asset/sequence, basetype B: sequence/asset); colliding keys of the later
+    basetype are renamed.
+    """
+    for _ in range(10):
+        bad = _order_conflicts(spec)
+        if not bad:
+            break
+        b2, key = bad[0]
+        for lv in b2["levels"]:
+            if lv["key"] == key:
+                lv["key"] = key + "_" + b2["name"][:2]
 
 
 def canonical_specs():
@@ -630,3 +673,20 @@ def canonical_specs():
                                 "levels": [{"key": "reel", "kind": "closed", "values": ["r1", "r2"]}, {"key": "cut", "kind": "free"}]}]
     variant("leaf-key-per-basetype", flat)
     return out
+
+
+def spec_problems(spec) -> list:
+    """Reasons why a Spec does not follow the conventions the properties assume (empty list = well-formed)."""
+    import copy
+    problems = []
+    if _order_conflicts(spec):
+        problems.append("two basetypes use the same level keys in a different order (a field dictionary would fit two key orders)")
+    for b in spec["basetypes"]:
+        if sum(1 for lv in b["levels"] if lv["kind"] == "free") > 1:
+            problems.append(f"basetype {b['name']} has more than one free level in one file name")
+    return problems
+
+
+def json_dumps(obj):
+    import json
+    return json.dumps(obj, sort_keys=True)
